@@ -172,15 +172,18 @@ def dist_options(kind, env):
         return [("const", lambda: dists.Constant(0.47), (0.47, 0.47)),
                 ("tophat", lambda: dists.TopHat(0.42, 0.55), (0.42, 0.55)),
                 ("gauss", lambda: dists.Gaussian(0.5, 0.03, min_value=0.46, max_value=0.53), (0.46, 0.53)),
-                ("gauss_tight", lambda: dists.Gaussian(0.5, 0.2, min_value=0.49, max_value=0.51), (0.49, 0.51))]
+                ("gauss_tight", lambda: dists.Gaussian(0.5, 0.2, min_value=0.49, max_value=0.51), (0.49, 0.51)),
+                ("gauss_max_only", lambda: dists.Gaussian(0.9, 0.05, max_value=0.92), (-math.inf, 0.92))]
     if kind == "loss":
         return [("const", lambda: dists.Constant(0.05), (0.05, 0.05)),
                 ("const0", lambda: dists.Constant(0), (0, 0)),
                 ("tophat", lambda: dists.TopHat(0.0, 0.2), (0.0, 0.2)),
-                ("gauss", lambda: dists.Gaussian(0.1, 0.1, min_value=0, max_value=0.3), (0, 0.3))]
+                ("gauss", lambda: dists.Gaussian(0.1, 0.1, min_value=0, max_value=0.3), (0, 0.3)),
+                ("gauss_min_only", lambda: dists.Gaussian(0.02, 0.05, min_value=0), (0, math.inf))]
     return [("const", lambda: dists.Constant(0.02), (0.02, 0.02)),
             ("tophat", lambda: dists.TopHat(-0.1, 0.1), (-0.1, 0.1)),
-            ("gauss", lambda: dists.Gaussian(0, 0.05, min_value=-0.08, max_value=0.12), (-0.08, 0.12))]
+            ("gauss", lambda: dists.Gaussian(0, 0.05, min_value=-0.08, max_value=0.12), (-0.08, 0.12)),
+            ("gauss_max_only_positional", lambda: dists.Gaussian(0, 0.05, None, 0.03), (-math.inf, 0.03))]
 
 
 def check_error_model(label, u, heralds, cfg, env, acc):
@@ -447,7 +450,7 @@ def run(tier, seed):
                 "near-degenerate families with eps from 1e-3 down to 1e-23, each with herald layouts incl. in!=out; 5 "
                 "composite circuits whose heralds come from added sub-circuits (one and two levels, grouped, with direct heralds); "
                 "oracle: same U (1e-8), only adjacent bs/ps/barriers, phases in [0,2pi), heralds and visible modes equal, no loss. "
-                "Error models: every combination of 4x4x3 distribution choices x 4 circuits x map seeds {0,1,2} twice "
+                "Error models: every combination of 5x5x4 distribution choices (incl. one-sided Gaussian bounds) x 4 circuits x map seeds {0,1,2} twice "
                 "each: declared bounds, reproducibility, phases, U_full unitary, U sub-unitary. E3: every scripted "
                 "answer sequence of the Gaussian resampling loop with <=3 out-of-range answers (4 kinds) followed by "
                 "each in-range answer (min, centre, max); TopHat at uniform 0, 0.5, 1-ulp. distinct_nontrivial = "
